@@ -209,6 +209,34 @@ def init_rules(chk, r):
         if got != "ValueError":
             chk.violation("active/set_geometry-accepts-non-geometry-column", dict(api="set_geometry", column=bad, got=got))
     chk.count("init-rules", 5)
+    # column labels that are falsy values (level-of-detail columns keyed 2, 1, 0; an empty string): selecting them is selecting them
+    import dask.dataframe as dd
+    for labels in ((2, 1, 0, 7), ("b", "a", "", "v")):
+        l2, l1, l0, lv = labels
+        n = 6
+        base, _ = build(r, n, "pt")
+        fr = GeoDataFrame({l2: base["ln"].array, l1: base["pt"].array, l0: base["pg"].array, lv: list(range(n))})
+        rep = dict(api="GeoDataFrame with falsy column labels", labels=[repr(x) for x in labels])
+        try:
+            if fr.geometry.name != l2:
+                chk.violation("active/default-is-not-first-geometry-column", dict(rep, got=repr(fr.geometry.name)))
+            s0 = fr.set_geometry(l0)
+            same = lambda x: (x == l0) and (isinstance(x, str) == isinstance(l0, str))  # noqa: E731
+            got = [s0.geometry.name, GeoDataFrame(s0).geometry.name, s0.iloc[1:4].geometry.name, pd.concat([s0, s0]).geometry.name]
+            if not all(same(x) for x in got):
+                chk.violation("active/falsy-column-label-not-honoured", dict(rep, selected=repr(l0), after=dict(zip(("set_geometry", "GeoDataFrame(frame)", "iloc", "concat"),
+                                                                                                                   [str(x) for x in got]))))
+            box = (-100, -100, 100, 100)
+            if list(s0.cx[box[0]:box[2], box[1]:box[3]].index) != list(fr.index[fr[l0].array.intersects_bounds(box)]):
+                chk.violation("active/falsy-column-label-not-honoured/cx", dict(rep, selected=repr(l0)))
+            d0 = dd.from_pandas(fr, npartitions=2).set_geometry(l0)
+            per = list(d0.map_partitions(lambda d: pd.Series([getattr(d, "_geometry", None)]), meta=pd.Series([], dtype=object)).compute())
+            if not same(d0.geometry.name) or not all(same(p_) for p_ in per) or not same(d0.compute().geometry.name):
+                chk.violation("active/falsy-column-label-not-honoured/dask", dict(rep, selected=repr(l0), description=str(d0.geometry.name), partitions=[str(x) for x in per],
+                                                                                 computed=str(d0.compute().geometry.name)))
+        except Exception as e:  # noqa: BLE001
+            chk.violation(f"active/falsy-column-label-raises-{common.err_kind(e)}", dict(rep, error=repr(e)[:300]))
+        chk.count("falsy-labels")
 
 
 def dask_level(chk, r, tmp):
